@@ -36,7 +36,7 @@ ASSUMPTIONS = [
     "headers/identifiers: printable, no line break, no leading/trailing blank; sequences are symbols of the sequence alphabets (FASTQ reads have length >= 1)",
     "FASTQ scores are those whose character for the offset is printable ASCII (33..126)",
     "GenBank field names <= 11 and sub-field names <= 9 characters without blanks, content of >= 1 line; FEATURES/ORIGIN raw content lines start with a blank",
-    "GenBank locations: defects the feature table can express (MISS_LEFT/MISS_RIGHT are slicing artefacts and not generated); qualifier values contain no double quote",
+    "GenBank locations: every defect flag is generated; MISS_LEFT/MISS_RIGHT (slicing artefacts the feature table cannot express) are expected to be dropped on read-back and to leave the expressible defects untouched; qualifier values contain no double quote",
     "GFF3: seqid/source/type are non-empty GFF3 tokens without leading '#' or '>' and without tabs; attribute values have no leading/trailing blank; IDs of multi-location features are unique",
 ]
 PROBES = ["fasta-replace-existing", "fastq-score-at-or-plus-at-line-start", "fastq-wrapped", "genbank-valueless-qualifier",
@@ -270,6 +270,15 @@ GFF_VALS = [v for v in QUAL_VALS if v == v.strip()] + ["a;b", "k=v", "50%", "a,b
 
 
 def gen_location(rng, maxpos):
+    l = _gen_location(rng, maxpos)
+    if rng.random() < 0.12:
+        # what slicing an annotated sequence leaves on a feature cut at the border (not expressible in GenBank,
+        # must not disturb what is; stripped again for GFF3)
+        l[3] = list(l[3]) + rng.choice([["MISS_LEFT"], ["MISS_RIGHT"], ["MISS_LEFT", "MISS_RIGHT"]])
+    return l
+
+
+def _gen_location(rng, maxpos):
     a = rng.randint(1, maxpos)
     b = rng.randint(a, maxpos)
     strand = rng.choice([1, 1, -1])
@@ -1109,21 +1118,24 @@ def norm_field(name, content, sub):
     return (name, list(content), {k.upper().strip(): list(v) for k, v in (sub or {}).items()})
 
 
-def make_location(l):
+def make_location(l, expressible_only=False):
     from biotite.sequence import Location
 
     d = Location.Defect.NONE
     for nme in l[3]:
+        if expressible_only and nme.startswith("MISS_"):
+            continue  # the flags slicing an Annotation leaves behind; GenBank has no notation for them
         d |= getattr(Location.Defect, nme)
     return Location(l[0], l[1], Location.Strand.FORWARD if l[2] == 1 else Location.Strand.REVERSE, d)
 
 
-def make_annotation(features):
+def make_annotation(features, expressible_only=False):
+    """The annotation that is put; with expressible_only, the one expected back: what the format can express."""
     from biotite.sequence import Annotation, Feature
 
     feats = []
     for f in features:
-        feats.append(Feature(f["key"], [make_location(l) for l in f["locs"]], dict(f["qual"])))
+        feats.append(Feature(f["key"], [make_location(l, expressible_only) for l in f["locs"]], dict(f["qual"])))
     return Annotation(feats)
 
 
@@ -1362,7 +1374,7 @@ class GenBankSim(Base):
             self.fail("typed:sequence-changed", kind=op["kind"], got=str(back.sequence)[:80], expected=op["seq"][:80])
         if back.sequence_start != op["start"]:
             self.fail("typed:sequence-start-changed", got=back.sequence_start, expected=op["start"])
-        self.compare_annotation(back.annotation, annot, op["features"], "annotated_sequence")
+        self.compare_annotation(back.annotation, make_annotation(op["features"], True), op["features"], "annotated_sequence")
         self.file = new
         self.readbacks += 1
         self.res.stats["probe:typed-roundtrip"] += 1
@@ -1406,6 +1418,7 @@ class GenBankSim(Base):
         st, back = call(gb.get_annotation, new)
         if st == "exc":
             self.fail("typed:get_annotation-raised", got=exc_name(back), msg=str(back)[:300])
+        annot = make_annotation(op["features"], True)
         self.compare_annotation(back, annot, op["features"], "annotation")
         # include_only restricts to the given keys and changes nothing else
         keys = sorted({f["key"] for f in op["features"]})
@@ -1438,7 +1451,7 @@ class GenBankSim(Base):
             f.set_field("DEFINITION", [rec["definition"]])
             gb.set_annotated_sequence(f, AnnotatedSequence(annot, seq, sequence_start=rec["start"]))
             files.append(f)
-            expected.append((rec["definition"], rec["seq"], rec["start"], annot))
+            expected.append((rec["definition"], rec["seq"], rec["start"], make_annotation(rec["features"], True)))
         fmt = "gp" if op["records"][0]["kind"].startswith("prot") else "gb"
 
         def writer(tgt):
